@@ -83,3 +83,15 @@ var (
 	_ hotstuff.QuorumSignature = (*Multi[Signature])(nil)
 	_ hotstuff.IDSet           = (*Multi[Signature])(nil)
 )
+
+// hasDuplicateSigner returns true if two entries of the multi-signature have the same signer.
+func hasDuplicateSigner[T Signature](sig Multi[T]) bool {
+	for i := range sig {
+		for j := i + 1; j < len(sig); j++ {
+			if sig[i].Signer() == sig[j].Signer() {
+				return true
+			}
+		}
+	}
+	return false
+}
